@@ -36,7 +36,7 @@ func checkC12(a *checkArgs, r *Result) error {
 		}
 		pool = append(pool, baseStream{"xz", "spec-gen/" + desc, s, c, 0})
 	}
-	n := 1800
+	n := 6000
 	if a.tier == "thorough" {
 		n = 30000
 	}
